@@ -183,12 +183,13 @@ claim('C21',
 
 claim('C29',
       'spec/mech/FileWrap.tla: template files as sequences of lines of fields with anchors; MarkAnchor (positive/negative occurrences), '
-      'ResetAnchor, TransferVar, TransferArray (incl. longer than the template), Transfer2DArray, ClearLine; TLC checks ReadBack, OthersUnchanged '
-      'and anchor laws on all operation sequences up to length 3. Every transition of the bounded graph is executed on a real InputFileGenerator '
-      'for each of 18 candidate values (ints, floats incl. -0.0, 1e300, 17 digits, negative exponents, inf, -inf, nan, strings) and the '
-      'generated file is read back completely with FileParser.',
-      'Value formatting is judged in the harness (floats to 16 significant digits); out-of-file rows, non-existent fields, too-short arrays, '
-      'transfer_keyvar and columns mode out of scope.',
+      'ResetAnchor, TransferVar, TransferArray (incl. longer than the template, and wrapped over several rows with row_end), Transfer2DArray, '
+      'ClearLine, the multi-row reader ReadArray; TLC checks ReadBack, ArrayReadBack, OthersUnchanged and anchor laws on all plain operation '
+      'sequences up to length 3 (wrapped arrays to depth 2). Every transition of the bounded graph is executed on a real InputFileGenerator '
+      'for each of 20 candidate values (ints, floats incl. -0.0, 1e300, 17 digits, 1.0000000000000002, negative exponents, inf, -inf, nan, '
+      'strings) under four delimiter sets (incl. regex-special characters) and the generated file is read back completely with FileParser.',
+      'Value formatting is judged in the harness (floats to 16 significant digits); booleans have no token in the format; out-of-file rows, '
+      'non-existent fields, too-short arrays, transfer_keyvar and columns mode out of scope.',
       'TLA+ state machine + TLC + transition-graph replay with a value-universe dimension', '5.8, 6/C29')
 
 claim('C06',
